@@ -768,3 +768,93 @@ Lemma hist_iqr_def : forall btv h a b,
   qres_value btv (hist_quantile h (1 # 4)) = Some b ->
   hist_iqr btv h = Some (a - b).
 Proof. intros btv h a b Ha Hb. unfold hist_iqr. rewrite Ha, Hb. reflexivity. Qed.
+
+(* ====================================================================== *)
+(* after any history each counter holds the number of added values that     *)
+(* its slot selects                                                         *)
+(* ====================================================================== *)
+Definition slot_eqb (a b : slot) : bool :=
+  match a, b with
+  | SUnder, SUnder => true
+  | SOver, SOver => true
+  | SBin i, SBin j => (i =? j)%nat
+  | _, _ => false
+  end.
+Lemma slot_eqb_eq : forall a b, slot_eqb a b = true <-> a = b.
+Proof.
+  intros [|i|] [|j|]; simpl; split; intro H; try discriminate; try reflexivity.
+  - apply Nat.eqb_eq in H. subst. reflexivity.
+  - inversion H. apply Nat.eqb_refl.
+Qed.
+
+Definition count_slot (slot_of : Q -> slot) (s : slot) (xs : list Q) : N :=
+  N.of_nat (length (filter (fun x => slot_eqb (slot_of x) s) xs)).
+
+Lemma counts_gen : forall (slot_of : Q -> slot) xs h s,
+  (forall x, valid_slot (length (h_bins h)) (slot_of x)) -> valid_slot (length (h_bins h)) s ->
+  exists c, slot_count h s = Some c /\
+  slot_count (fold_left (fun h x => h_incr h (slot_of x)) xs h) s = Some (c + count_slot slot_of s xs)%N.
+Proof.
+  intros slot_of. induction xs as [|x t IH]; intros h s Hv Hs.
+  - destruct (h_incr_exactly h s Hs) as [_ [[c [C1 _]] _]].
+    exists c. split; [exact C1|]. simpl. unfold count_slot. simpl. rewrite N.add_0_r. exact C1.
+  - simpl fold_left.
+    destruct (h_incr_exactly h (slot_of x) (Hv x)) as [_ [[c0 [A1 A2]] [A3 A4]]].
+    assert (Hv' : forall y, valid_slot (length (h_bins (h_incr h (slot_of x)))) (slot_of y)) by (intro y; rewrite A4; apply Hv).
+    assert (Hs' : valid_slot (length (h_bins (h_incr h (slot_of x)))) s) by (rewrite A4; exact Hs).
+    destruct (IH (h_incr h (slot_of x)) s Hv' Hs') as [c' [B1 B2]].
+    unfold count_slot in *. cbn [filter].
+    destruct (slot_eqb (slot_of x) s) eqn:E.
+    + apply slot_eqb_eq in E. rewrite E in *. exists c0. split; [exact A1|].
+      rewrite B2. rewrite A2 in B1. inversion B1; subst c'. f_equal. simpl length. lia.
+    + assert (Hne : s <> slot_of x) by (intro Eq; subst s; rewrite (proj2 (slot_eqb_eq _ _) eq_refl) in E; discriminate).
+      rewrite (A3 s Hne) in B1. exists c'. split; [exact B1|exact B2].
+Qed.
+
+(* LinearHist: after any sequence of Adds, bin i holds exactly the number of added values x
+   with BinToValue(i) <= x < BinToValue(i+1) (by lin_bin_iff_edges), under / over likewise *)
+Lemma lin_run_counts : forall mn mx nbins xs s, valid_slot nbins s ->
+  slot_count (lin_run mn mx nbins xs) s = Some (count_slot (lin_slot mn mx nbins) s xs).
+Proof.
+  intros mn mx nbins xs s Hs. unfold lin_run.
+  assert (E : fold_left (lin_add mn mx) xs (h_empty nbins) =
+              fold_left (fun h x => h_incr h (lin_slot mn mx nbins x)) xs (h_empty nbins)).
+  { assert (G : forall xs h, length (h_bins h) = nbins ->
+                fold_left (lin_add mn mx) xs h = fold_left (fun h x => h_incr h (lin_slot mn mx nbins x)) xs h).
+    { induction xs0 as [|x t IH]; intros h Hl; [reflexivity|]. simpl. unfold lin_add at 2. rewrite Hl.
+      apply IH. destruct (lin_slot mn mx nbins x); simpl; auto. rewrite incr_nth_length. exact Hl. }
+    apply G. simpl. apply repeat_length. }
+  rewrite E.
+  assert (Hl : length (h_bins (h_empty nbins)) = nbins) by (simpl; apply repeat_length).
+  destruct (counts_gen (lin_slot mn mx nbins) xs (h_empty nbins) s) as [c [C1 C2]].
+  - intro x. rewrite Hl. apply dispatch_valid.
+  - rewrite Hl. exact Hs.
+  - rewrite C2. f_equal.
+    assert (c = 0%N).
+    { destruct s as [|i|]; simpl in C1; try (inversion C1; reflexivity).
+      simpl in Hs. rewrite nth_error_repeat in C1 by exact Hs. inversion C1. reflexivity. }
+    subst c. lia.
+Qed.
+
+Lemma log_run_counts : forall b m nbins xs s, valid_slot nbins s ->
+  slot_count (log_run b m nbins xs) s = Some (count_slot (log_slot b m nbins) s xs).
+Proof.
+  intros b m nbins xs s Hs. unfold log_run.
+  assert (E : fold_left (log_add b m) xs (h_empty nbins) =
+              fold_left (fun h x => h_incr h (log_slot b m nbins x)) xs (h_empty nbins)).
+  { assert (G : forall xs h, length (h_bins h) = nbins ->
+                fold_left (log_add b m) xs h = fold_left (fun h x => h_incr h (log_slot b m nbins x)) xs h).
+    { induction xs0 as [|x t IH]; intros h Hl; [reflexivity|]. simpl. unfold log_add at 2. rewrite Hl.
+      apply IH. destruct (log_slot b m nbins x); simpl; auto. rewrite incr_nth_length. exact Hl. }
+    apply G. simpl. apply repeat_length. }
+  rewrite E.
+  assert (Hl : length (h_bins (h_empty nbins)) = nbins) by (simpl; apply repeat_length).
+  destruct (counts_gen (log_slot b m nbins) xs (h_empty nbins) s) as [c [C1 C2]].
+  - intro x. rewrite Hl. apply dispatch_valid.
+  - rewrite Hl. exact Hs.
+  - rewrite C2. f_equal.
+    assert (c = 0%N).
+    { destruct s as [|i|]; simpl in C1; try (inversion C1; reflexivity).
+      simpl in Hs. rewrite nth_error_repeat in C1 by exact Hs. inversion C1. reflexivity. }
+    subst c. lia.
+Qed.
